@@ -500,6 +500,118 @@ def walkList (C : MCtx) : Nat → Nat → GMs → SMs → List Str → WR GMs
     | .absent => walkList C fuel depth acc m ks
 end
 
+/-! ### JSON.parse with a reviver (builtinJSONReviveWalk, l.42) -/
+
+/-  Values during the reviver walk: JSON values plus `undef` (a hole left by a deletion, or a
+    reviver result). -/
+mutual
+inductive RV where
+  | undef
+  | null
+  | bool (b : Bool)
+  | num (x : FV)
+  | str (s : Str)
+  | arr (l : RVs)
+  | obj (m : RMs')
+inductive RVs where
+  | nil
+  | cons (v : RV) (t : RVs)
+inductive RMs' where
+  | nil
+  | cons (k : Str) (v : RV) (t : RMs')
+end
+
+mutual
+def rvOf : JV → RV
+  | .null => .null
+  | .bool b => .bool b
+  | .num x => .num x
+  | .str s => .str s
+  | .arr l => .arr (rvOfL l)
+  | .obj m => .obj (rvOfM m)
+def rvOfL : JVs → RVs
+  | .nil => .nil
+  | .cons v t => .cons (rvOf v) (rvOfL t)
+def rvOfM : JMs → RMs'
+  | .nil => .nil
+  | .cons k v t => .cons k (rvOf v) (rvOfM t)
+end
+
+/-- a reviver: (key, value) ↦ result, `none` = undefined -/
+abbrev Reviver := Str → RV → Option RV
+
+def RMs'.get (k : Str) : RMs' → Option RV
+  | .nil => none
+  | .cons k' v t => if k' = k then some v else RMs'.get k t
+def RMs'.set (k : Str) (v : RV) : RMs' → RMs'
+  | .nil => .cons k v .nil
+  | .cons k' v' t => if k' = k then .cons k' v t else .cons k' v' (RMs'.set k v t)
+def RMs'.del (k : Str) : RMs' → RMs'
+  | .nil => .nil
+  | .cons k' v' t => if k' = k then t else .cons k' v' (RMs'.del k t)
+def RMs'.keys : RMs' → List Str
+  | .nil => []
+  | .cons k _ t => k :: RMs'.keys t
+
+/-- object.go deleteProperty (l.133) on the propertyOrder slice seen through the ORIGINAL slice
+    header: `live` = current length; the removed name's successors shift left inside the shared
+    backing array and the last live slot keeps a stale copy -/
+def orderDelete (name : Str) (backing : List Str) (live : Nat) : List Str × Nat :=
+  match (backing.take live).idxOf? name with
+  | none => (backing, live)
+  | some idx =>
+    if idx + 1 = live then (backing, live - 1)
+    else (backing.take idx ++ (backing.take live).drop (idx + 1) ++ backing.drop (live - 1), live - 1)
+
+mutual
+/-- builtinJSONReviveWalk(holder, name) with `value = holder.get(name)` passed in; returns the
+    reviver's result and the keys of the reviver calls in call order.  (Fuel: every call consumes one.) -/
+def reviveM (f : Reviver) : Nat → Str → RV → Option RV × List Str
+  | 0, _, _ => (none, [])
+  | fuel + 1, name, .arr l =>
+    let r := reviveArrM f fuel 0 l
+    (f name (.arr r.1), r.2 ++ [name])
+  | fuel + 1, name, .obj m =>
+    let ks := RMs'.keys m
+    let r := reviveObjM f fuel 0 ks ks.length m
+    (f name (.obj r.1), r.2 ++ [name])
+  | _ + 1, name, v => (f name v, [name])
+/-- l.46-55: indices 0..length-1; undefined deletes the element (a hole), else it is redefined -/
+def reviveArrM (f : Reviver) : Nat → Nat → RVs → RVs × List Str
+  | 0, _, _ => (.nil, [])
+  | _ + 1, _, .nil => (.nil, [])
+  | fuel + 1, i, .cons v t =>
+    let r := reviveM f fuel (decimalNat i) v
+    let rest := reviveArrM f fuel (i + 1) t
+    (.cons (match r.1 with | some x => x | none => .undef) rest.1, r.2 ++ rest.2)
+/-- l.57-65: `obj.enumerate` ranges over the propertyOrder slice AS IT WAS when the loop started
+    (length n, shared backing array) while `obj.delete` edits it in place; names whose property is
+    gone are skipped (objectEnumerate reads a zero property: not enumerable).  A name met twice is
+    walked twice, the second time on the value the first visit stored. -/
+def reviveObjM (f : Reviver) : Nat → Nat → List Str → Nat → RMs' → RMs' × List Str
+  | 0, _, _, _, cur => (cur, [])
+  | fuel + 1, i, backing, live, cur =>
+    match backing[i]? with
+    | none => (cur, [])
+    | some name =>
+      match RMs'.get name cur with
+      | none => reviveObjM f fuel (i + 1) backing live cur
+      | some v0 =>
+        let r := reviveM f fuel name v0
+        match r.1 with
+        | none =>
+          let od := orderDelete name backing live
+          let rest := reviveObjM f fuel (i + 1) od.1 od.2 (RMs'.del name cur)
+          (rest.1, r.2 ++ rest.2)
+        | some x =>
+          let rest := reviveObjM f fuel (i + 1) backing live (RMs'.set name x cur)
+          (rest.1, r.2 ++ rest.2)
+end
+
+/-- JSON.parse(text, reviver) for the parsed value `v` whose object properties are in the order
+    given (l.34-38: wrapper object with the empty key) -/
+def reviveTop (f : Reviver) (fuel : Nat) (v : RV) : Option RV × List Str := reviveM f fuel [] v
+
 /-! ### Go's encoder -/
 
 def hex4 (n : Nat) : Str :=
